@@ -368,6 +368,33 @@ Theorem c20_eq_form_same_as_space_form : forall name v rest acc a,
 Proof. exact cli_eq_form_same_as_space_form. Qed.
 Print Assumptions c20_eq_form_same_as_space_form.
 
+(* the manual's reading of a command line IS what the parser computes.  A command line read item by item (--flag, --name=value,
+   --name value, a positional word), each item given the meaning the manual gives it (item_effect: the option exists, takes (no)
+   value, was not given before if it may be given once, the value passes its value parser and, in the space form, does not look like
+   an option; a word goes to the next free positional), in ANY order and mix of forms: the tokenizer turns the rendered vector into
+   exactly the record of those effects *)
+Theorem c20_manual_reading_is_parsed : forall items out, items_effect CLI [] items = Some out ->
+  (group_members_present GROUP out <= 1)%nat -> required_present CLI out = true ->
+  parse CLI GROUP (render items) = PParsed out.
+Proof. exact (manual_reading_is_parsed CLI GROUP). Qed.
+Print Assumptions c20_manual_reading_is_parsed.
+
+(* help / version take effect where they stand: behind any readable prefix, whatever follows and whatever is still missing;
+   an unknown option in front of them wins *)
+Theorem c20_help_where_it_stands : forall items out post, items_effect CLI [] items = Some out ->
+  parse CLI GROUP (render items ++ "--help"%str :: post) = PHelp /\
+  parse CLI GROUP (render items ++ "-h"%str :: post) = PHelp /\
+  parse CLI GROUP (render items ++ "--version"%str :: post) = PVersion /\
+  parse CLI GROUP (render items ++ "-V"%str :: post) = PVersion.
+Proof. exact (help_where_it_stands CLI GROUP). Qed.
+Print Assumptions c20_help_where_it_stands.
+
+Theorem c20_unknown_option_rejected : forall items out name post, items_effect CLI [] items = Some out ->
+  plain_name name = true -> name <> ""%str -> find_long CLI name = None ->
+  parse CLI GROUP (render items ++ long_form name :: post) = PUsage.
+Proof. exact (unknown_option_rejected CLI GROUP). Qed.
+Print Assumptions c20_unknown_option_rejected.
+
 (* every argument vector, every environment: the process ends through clap (usage error: status 2, one message on
    standard error, NOTHING else happens - no sink is opened, no report byte; help / version: status 0, text on standard
    output, no sink opened - not even the --log-file) or reaches main()'s logic with a flag record *)
@@ -482,4 +509,19 @@ Example c20_nonvacuous_argv :
   stackwalk pid ["--output-file"; "--json"; "a.dmp"]%str e = ([ClapMessage false], 2) /\
   stackwalk pid ["--"; "--json"]%str e = ([MainEv (Written Stdout Human)], 0) /\
   stackwalk pid ["--pretty"; "a.dmp"]%str e = ([MainEv (Diag Logger)], 1).
+Proof. repeat split. Qed.
+
+Example c20_nonvacuous_manual_reading :
+  let items := [IOptSp "cyborg" "c.json"; IOptEq "features" "unstable-all"; IFlag "brief"; IWord "a.dmp";
+                IOptSp "output-file" "o.txt"; IWord "syms"; IOptEq "symbols-path" "more"; IOptSp "symbols-path" "-"]%str in
+  let out := [("cyborg", "c.json"); ("features", "unstable-all"); ("brief", ""); ("minidump", "a.dmp"); ("output_file", "o.txt");
+              ("symbols_path_legacy", "syms"); ("symbols_path", "more"); ("symbols_path", "-")]%str in
+  items_effect CLI [] items = Some out /\
+  render items = ["--cyborg"; "c.json"; "--features=unstable-all"; "--brief"; "a.dmp"; "--output-file"; "o.txt"; "syms";
+                  "--symbols-path=more"; "--symbols-path"; "-"]%str /\
+  parse CLI GROUP (render items) = PParsed out /\
+  parse CLI GROUP (render items ++ ["--help"; "--bogus"]%str) = PHelp /\
+  items_effect CLI [] [IFlag "json"; IFlag "json"; IWord "a.dmp"]%str = None /\
+  items_effect CLI [] [IOptEq "features" "Stable-All"; IWord "a.dmp"]%str = None /\
+  find_long CLI "feature"%str = None.
 Proof. repeat split. Qed.
